@@ -40,10 +40,11 @@ func runFaulted(t TB, p *Program, f *FaultSpec) (nOps int, hits int, kinds map[s
 		e.Dir = newCaseDir()
 		e.FS = NewFS(e.Dir)
 		e.FS.DelayAfterFault = 2 * time.Millisecond
+		e.FS.MaxCreates = 4096 // every retried round may create (and remove) a file
 		e.curStep = &cur
 		if f != nil {
 			spec := *f
-			e.FS.FaultFn = func(idx int, kind, name string, n int) *Fault {
+			e.FS.FaultFn = func(idx int, kind, name string, n int) *Fault { // called under FS.mu
 				if e.faultsOff {
 					return nil
 				}
